@@ -1177,6 +1177,17 @@ func (e *Engine) gotoBlock(st *State, b *ssa.BasicBlock) []*State {
 	}
 	invs = e.applicable(st, invs)
 	if li.body[from] && b.Dominates(from) {
+		if isRoot && e.inSummary == 0 && (len(invs) > 0 || len(decs) > 0) {
+			// vacuity guard: some path through the loop body must be satisfiable, otherwise the
+			// invariant-preservation obligations of this loop hold for no reason
+			key := fmt.Sprintf("loop%d-body %s", li.ordinal, posString(e.P.prog.Fset, firstPos(b)))
+			if e.covers == nil {
+				e.covers = map[string][][]string{}
+			}
+			if len(e.covers[key]) < 400 {
+				e.covers[key] = append(e.covers[key], append([]string{}, st.pc...))
+			}
+		}
 		// back edge: re-establish invariants, check variant, end of path
 		for k, c := range invs {
 			v := e.evalSpecBool(st, e.entry, c.Expr, e.rootEnv(st, nil))
